@@ -9,6 +9,7 @@ import (
 	"github.com/grafana/cog/internal/ast/compiler"
 	"github.com/grafana/cog/internal/semver"
 	"github.com/grafana/cog/internal/tools"
+	"github.com/grafana/cog/internal/verifhook"
 	cogyaml "github.com/grafana/cog/internal/yaml"
 )
 
@@ -167,6 +168,9 @@ func (input *Input) LoadSchemas(ctx context.Context) (ast.Schemas, error) {
 	schemas, err := loader.LoadSchemas(ctx)
 	if err != nil {
 		return nil, err
+	}
+	if verifhook.Enabled {
+		verifhook.Emit("input.loaded", input, schemas)
 	}
 
 	if transformableLoader, ok := loader.(transformable); ok {
